@@ -88,6 +88,10 @@ impl Panicked {
     }
 }
 
+pub fn take_last_panic() -> Option<(String, String)> {
+    LAST_PANIC.with(|p| p.borrow_mut().take())
+}
+
 /// run a library call under the panic monitor
 pub fn guard<T>(f: impl FnOnce() -> T) -> Result<T, Panicked> {
     match catch_unwind(AssertUnwindSafe(f)) {
